@@ -21,7 +21,7 @@ SPEC = dict(
     assumptions=["expected message = template with placeholders replaced textually (own implementation)",
                  "templates contain no braces other than documented placeholders; OLD/NEW occur as separate words",
                  "real git: only messages that git's own whitespace/comment clean-up leaves unchanged are read back"],
-    required=["fake_git_runs", "fake_hg_runs", "real_git_runs", "k12_evaluations", "class:squote", "class:dquote",
+    required=["real_git_leading_dash_paths", "fake_git_runs", "fake_hg_runs", "real_git_runs", "k12_evaluations", "class:squote", "class:dquote",
               "class:backslash", "class:newline", "class:leading-dash", "class:dollar", "class:backtick",
               "hostile_paths_checked", "templates_from_config", "config_templates_with_OLD_NEW_words",
               "templates_from_setup_cfg", "ini_templates_with_percent", "empty_tag_message_from_config"],
@@ -292,7 +292,9 @@ def run_real(ctx, case):
             break
     else:
         raise harness.Skip("no-cleanup-stable-message")
-    names = [n for n in R.sample(PATH_NAMES, R.randint(1, 3)) if not n.startswith("-")] or ["plain.txt"]
+    names = R.sample(PATH_NAMES, R.randint(1, 3))
+    if any(n.startswith("-") for n in names):
+        ctx.count("real_git_leading_dash_paths")
     files = build_project(R, names)
     d = harness.new_project(files)
     try:
